@@ -386,12 +386,12 @@ func (m *Machine) callSSA(caller *frame, pos token.Pos, fn *ssa.Function, args [
 	}
 	if m.Hooks.OnEnter != nil {
 		m.Hooks.OnEnter(m, fn, args)
+		if m.Hooks.OnLeave != nil {
+			defer m.Hooks.OnLeave(m, fn)
+		}
 	}
 	for fr.block != nil {
 		m.runFrame(fr)
-	}
-	if m.Hooks.OnLeave != nil {
-		m.Hooks.OnLeave(m, fn)
 	}
 	return fr.result
 }
